@@ -52,8 +52,15 @@ def gen(r, tier, i):
                 p['cond'] = {'seq': [r.random() < 0.6 for _ in range(r.randint(2, 6))]}
         for p in procs:
             p['toggle'] = r.choice([0, 1, 2, 3])
-    calls = sched.cap_events(r, procs, sched.gen_calls(r, grid, prec, maxcalls=6, end_with_update=True, zero=True), grid, prec)
-    return {'grid': grid, 'precision': prec, 't0': t0, 'procs': procs, 'calls': calls}
+    par = r.random() < (0.01 if tier == 'thorough' else 0.004)
+    if par:
+        # some processes run in a worker (the ledger updater in the parent still sees every applied token)
+        for p in procs:
+            if r.random() < 0.7:
+                p['parallel'] = True
+    calls = sched.cap_events(r, procs, sched.gen_calls(r, grid, prec, maxcalls=6, end_with_update=True, zero=True), grid, prec,
+                             cap=60 if par else 260)
+    return {'grid': grid, 'precision': prec, 't0': t0, 'procs': procs, 'calls': calls, 'parallel': par}
 
 
 def exact(x, grid):
@@ -79,6 +86,11 @@ def run(spec):
         V.check('no_exception', False, ('constructor raised', type(ex).__name__, str(ex)[:200]))
         return {'viol': list(V), 'evals': V.evals, 'nontrivial': False}
     Mon.cur = None
+    if spec.get('parallel'):
+        try:
+            e.end()
+        except Exception as ex:
+            V.check('no_exception', False, ('Engine.end() raised', type(ex).__name__, str(ex)[:200]))
     if not ok:
         V.check('no_exception', False, ('run_for/update did not return', repr(exc)[:300]))
     t0 = exact(spec['t0'], grid)
@@ -141,7 +153,8 @@ def run(spec):
             final = exact(e.global_time, grid)
             V.check('sum_is_elapsed', total == final - t0,
                     lambda: ('timesteps handed to process %d sum to %r, elapsed %r' % (pid, float(total), float(final - t0))))
-            V.check('nothing_pending', len(invoked.get(pid, [])) == len(toks),
+            # (invocations inside a worker are not seen by the parent's event log)
+            V.check('nothing_pending', p.get('parallel') or len(invoked.get(pid, [])) == len(toks),
                     lambda: ('after update(): invoked %d, applied %d' % (len(invoked.get(pid, [])), len(toks)), pid))
     # deferral statistic: an invoke whose interval start precedes the call start
     starts = [ev[4] for ev in m.events if ev[0] == 'call']
